@@ -1,8 +1,9 @@
 """Comparators, statistics and PROPS entries for the router suites (C01 C02 C07 C08 C09 C10 C12)."""
 import hashlib
+import re
 
 NA = "006e61"  # hex of "\x00na"
-FIELDS = ("route=", "u0=", "u1=", "chains=", "ran=", "long=", "code=", "dirty=", "laws=")
+FIELDS = ("route=", "u0=", "u1=", "chains=", "ran=", "long=", "code=", "dirty=", "laws=", "alts=")
 
 
 def parse_out(line):
@@ -37,7 +38,16 @@ def _setup_diverged(sess, R, M):
     return [i for i, op in enumerate(sess) if not _is_req(op) and not op.startswith("URL ") and R[i] != M[i]]
 
 
+def _is_app(sess):
+    """`NEW app` sessions (harness/app.go, Driver/App.lean): a whole application behind Flame.ServeHTTP"""
+    return bool(sess) and sess[0].split()[:2] == ["NEW", "app"]
+
+
 def cmp_dispatch(sess, R, M, params=False, chains=False, setup=False, urls=False):
+    if _is_app(sess):
+        # every output line of an app session is an observable of C07 (Before hooks that ran, the chain's
+        # events with the parameters the handlers saw, what the client received, escaped panics): plain equality
+        return [i for i in range(len(sess)) if i >= len(R) or i >= len(M) or R[i] != M[i]]
     bad = []
     sd = _setup_diverged(sess, R, M)
     if sd:
@@ -97,8 +107,14 @@ def router_stats(nontrivial_req, rule):
         samples = []
         for (a, b) in sessions:
             routes = []
+            app = _is_app(lines[a:a + 1])
+            if app:
+                dist["app_sessions"] = dist.get("app_sessions", 0) + 1
             for i in range(a + 1, b):
                 op = lines[i]
+                if app and op.startswith("REQ "):
+                    k = "app_" + (R[i].split() or ["?"])[0]      # app_h / app_nf / app_stop / app_q
+                    dist[k] = dist.get(k, 0) + 1
                 if op.startswith("ADD "):
                     t = op.split()
                     ok = R[i].startswith("ok")
@@ -123,6 +139,11 @@ def router_stats(nontrivial_req, rule):
                     if key in seen:
                         continue
                     seen.add(key)
+                    ma = re.search(r" alts=(\d+)", M[i])
+                    if ma:
+                        a_ = int(ma.group(1))
+                        dist["alts_0" if a_ == 0 else "alts_1" if a_ == 1 else "alts_2plus"] = dist.get(
+                            "alts_0" if a_ == 0 else "alts_1" if a_ == 1 else "alts_2plus", 0) + 1
                     if nontrivial_req(op, R[i], M[i], len(routes)):
                         nt += 1
                         if len(samples) < 3:
